@@ -434,6 +434,9 @@ func judge(cf *config, im *impl, before mstate, txn []op) judged {
 	exps := expectations(sc, before, txn)
 	res := im.runTxn(txn)
 	after := im.read()
+	if os.Getenv("C08_DEBUG") != "" {
+		fmt.Printf("DEBUG ops=%+v committed=%v abort=%q after=%s\n", res.Ops, res.Committed, res.AbortMsg, sc.showState(after))
+	}
 
 	// the implementation must satisfy one of the expectations completely;
 	// if it satisfies none, the failures against the first (an empty foreign
